@@ -1,0 +1,71 @@
+//go:build verif
+
+package httpc
+
+import (
+	"context"
+	"encoding/json"
+	"fmt"
+	"net/http"
+	"net/http/httptest"
+	"testing"
+	"time"
+
+	"github.com/gotid/god/internal/verifdrv"
+	"github.com/gotid/god/lib/breaker"
+	"github.com/gotid/god/lib/logx"
+	"github.com/gotid/god/lib/timex"
+)
+
+// TestVerifDriverC01: {"arg": status | 1000 (transport error: nothing listens), "ctor": 0 NewService | 1
+// NewServiceWithClient}: 200 GETs through a freshly named httpc.Service (its named breaker) against an httptest
+// server that answers every request with the status; frozen breaker clock.  "ok" iff no request was cut off by the
+// breaker (breaker.ErrServiceUnavailable, remote not reached).
+func TestVerifDriverC01(t *testing.T) {
+	logx.Disable()
+	n := 0
+	verifdrv.Run(t, func(raw json.RawMessage) any {
+		var c struct {
+			Arg  int `json:"arg"`
+			Ctor int `json:"ctor"`
+		}
+		if err := json.Unmarshal(raw, &c); err != nil {
+			return map[string]any{"error": err.Error()}
+		}
+		timex.VerifSetNow(time.Hour)
+		defer timex.VerifClockOff()
+		n++
+		reached := 0
+		srv := httptest.NewServer(http.HandlerFunc(func(w http.ResponseWriter, r *http.Request) {
+			reached++
+			w.WriteHeader(c.Arg)
+		}))
+		url := srv.URL
+		if c.Arg == 1000 {
+			srv.Close() // connection refused from now on
+		} else {
+			defer srv.Close()
+		}
+		name := fmt.Sprintf("verif-httpc-%d", n)
+		var svc Service
+		if c.Ctor == 1 {
+			svc = NewServiceWithClient(name, &http.Client{Timeout: 5 * time.Second})
+		} else {
+			svc = NewService(name)
+		}
+		dropped, failed := 0, 0
+		for i := 0; i < 200; i++ {
+			before := reached
+			resp, err := svc.Do(context.Background(), http.MethodGet, url+"/verif", nil)
+			if resp != nil && resp.Body != nil {
+				resp.Body.Close()
+			}
+			if err == breaker.ErrServiceUnavailable && reached == before {
+				dropped++
+			} else if err != nil {
+				failed++
+			}
+		}
+		return map[string]any{"ok": dropped == 0, "dropped": dropped, "failed": failed}
+	})
+}
